@@ -1,11 +1,8 @@
+\* negative twin: only the property it must violate is checked (TLC reports the first violation it meets)
 SPECIFICATION Spec
 CONSTANTS
   MaxDamage = 1
   Variant = "ri_keep_missing"
 CONSTRAINT Bound
-INVARIANTS
-  NoNewLoss
-  RepairIndexPost
-PROPERTIES
-  SalvageRule
+INVARIANT RepairIndexPost
 CHECK_DEADLOCK FALSE
